@@ -97,7 +97,16 @@ def valid(case):
 def build_ir(case):
     ir = domain.to_ir(case["ir"], name=kinds.FUNC_NAME, typ="static")
     if case["body"]:
-        ir["_internal"] = {"body": ast.parse("\n".join(case["body"])).body, "from_name": kinds.FUNC_NAME, "from_type": "static"}
+        body = ast.parse("\n".join(case["body"])).body
+        ir["_internal"] = {"body": body, "from_name": kinds.FUNC_NAME, "from_type": "static"}
+        if isinstance(body[-1], ast.Return) and body[-1].value is not None and not (ir.get("returns") or {}).get("return_type", {}).get("default"):
+            # as parse.function does for a body that ends in `return <expr>`: the expression is the return default
+            from collections import OrderedDict
+
+            rt = dict((ir.get("returns") or {}).get("return_type", {}) or {})
+            rt["default"] = "```%s```" % ast.unparse(body[-1].value)
+            rt.setdefault("doc", "the result")
+            ir["returns"] = OrderedDict((("return_type", rt),))
     return ir
 
 
